@@ -63,6 +63,9 @@ def run(ck, rng):
                         pre.append((tjoin(target, base + b"/" + nm + b"_d/deeper/f.txt"), "f"))
                 if rng.random() < 0.3:
                     pre.append((tjoin(target, b"unrelated_top"), "d"))
+                if dirs and rng.random() < 0.25:
+                    # an extra entry that is a SYMBOLIC LINK (to a directory, or dangling): an entry like any other
+                    pre.append((tjoin(target, rng.choice(dirs) + b"/zz_link"), "l" + hx(rng.choice([b"..", b"nowhere", b"."]))))
         if rng.random() < 0.15:
             # an EARLIER verify in the same process that fails with an I/O error part-way (its target is a regular file,
             # or a name is too long for the OS): what it collected must not leak into the verify that follows
@@ -82,7 +85,7 @@ def run(ck, rng):
         vop = mk_vop(vtarget) + encs
         cases.append("hist " + ";".join(["F,%s" % snap_arg(pre)] + ops + build + [vop]))
         mcases.append("hist " + ";".join(["F,%s" % snap_arg(pre)] + ops + build + [mk_vop(target) + encs]))
-        meta.append((vname, its, target, strict == "1", scen, len(ops)))
+        meta.append((vname + ("_link" if any(k_.startswith("l") for _, k_ in pre) else ""), its, target, strict == "1", scen, len(ops)))
     impl, _ = run_impl(exe, cases)
     model = run_model(mcases)
     broken = None
@@ -167,6 +170,6 @@ def run(ck, rng):
         if bad:
             ck.violation({"property": "C08", "kind": "verify_exact", "class": scen + "|" + name + "|" + bad[:18], "case": cases[i],
                           "got": parts[-1][:600], "why": bad, "expected": model[i].split("|")[-1][:600]})
-        elif impl[i] != model[i]:
+        elif impl[i] != model[i] and "_link" not in name:      # symbolic links are not modelled
             broken = broken or (cases[i][:1500], impl[i][-400:], model[i][-400:])
     return broken
